@@ -322,7 +322,9 @@ func ruleH2(c *Ctx) {
 			c.viol(key, c.P.Pos(ins.Pos()), "insert never increments len")
 		} else {
 			// region: blocks from which incBlock is reached without branching away: the straight-line suffix; approximate by "block dominates incBlock or == incBlock, and incBlock post-follows"
-			region := func(b *ssa.BasicBlock) bool { return b == incBlock || (b.Dominates(incBlock) && singlePathTo(b, incBlock)) }
+			region := func(b *ssa.BasicBlock) bool {
+				return b == incBlock || (b.Dominates(incBlock) && singlePathTo(b, incBlock))
+			}
 			var missing []string
 			for _, w := range []string{"entry.hash", "entry.key", "entry.value", "entry.prevLink", "*tailLink", "hashtable.tailLink=&next"} {
 				if !has(ss, region, w) {
